@@ -229,7 +229,7 @@ func (filesDriver) record(hist []int) (*crashlog.Log, *crashlog.Image, []error, 
 	log := &crashlog.Log{}
 	base := crashlog.NewImage()
 	base.Dirs["/root"] = true
-	vfs := newMemVFS(base.Clone(), log)
+	vfs := crashlog.NewMemVFS(base.Clone(), log)
 	sto := files.NewStorage(vfs, "/root")
 	var errs []error
 	for _, oi := range hist {
@@ -240,7 +240,7 @@ func (filesDriver) record(hist []int) (*crashlog.Log, *crashlog.Image, []error, 
 }
 
 func (filesDriver) open(im *crashlog.Image, reindex bool) (blobserver.Storage, func(), error) {
-	vfs := newMemVFS(im.Clone(), nil)
+	vfs := crashlog.NewMemVFS(im.Clone(), nil)
 	return filesStorage{files.NewStorage(vfs, "/root")}, func() {}, nil
 }
 
